@@ -124,23 +124,34 @@ def cname(i, scheme=0):
     return REAL_NAMES[i - 1] if scheme else chrom_name(i)
 
 
-def write_inputs(d, kind, items, tag, scheme=0):
+def write_inputs(d, kind, items, tag, scheme=0, style=0):
     """chromosome sizes differ: the first chromosome is exactly as long as its data (so later chromosomes have
     records beyond the first one's length), chromosome c has c spare bases"""
     nch = max(it[0] for it in items)
     szs = {c: max([it[2] for it in items if it[0] == c] + [1]) + (0 if c == 1 else c) for c in range(1, nch + 1)}
     size = szs
     sizes = os.path.join(d, "chrom_%s.sizes" % tag)
-    with open(sizes, "w") as f:
+    # the same table in the text shapes chrom.sizes files come in (style): 0 plain; 1 a .fai index (more columns, spaces); 2 blank lines and
+    # chromosomes the data never mentions; 3 Windows line ends and no final newline
+    with open(sizes, "w", newline="") as f:
+        rows = []
         for c in range(1, nch + 1):
-            f.write("%s\t%d\n" % (cname(c, scheme), szs[c]))
+            if style == 1:
+                rows.append("%s  %d %d\t60\t61" % (cname(c, scheme), szs[c], 7 + 100 * c))
+            else:
+                rows.append("%s\t%d" % (cname(c, scheme), szs[c]))
+        if style == 2:
+            rows = ["", rows[0], "", "chrZz_unused\t12345"] + rows[1:] + ["chrZy_unused\t5", ""]
+        f.write("\r\n".join(rows) if style == 3 else "\n".join(rows) + "\n")
     path = os.path.join(d, "in_%s.%s" % (tag, "bedGraph" if kind == "bw" else "bed"))
     with open(path, "w") as f:
+        lines = []
         for it in items:
             if kind == "bw":
-                f.write("%s\t%d\t%d\t%s\n" % (cname(it[0], scheme), it[1], it[2], VALS[it[3]]))
+                lines.append("%s\t%d\t%d\t%s" % (cname(it[0], scheme), it[1], it[2], VALS[it[3]]))
             else:
-                f.write("%s\t%d\t%d\t%s\n" % (cname(it[0], scheme), it[1], it[2], bed_rest(it[3])))
+                lines.append("%s\t%d\t%d\t%s" % (cname(it[0], scheme), it[1], it[2], bed_rest(it[3])))
+        f.write("\n".join(lines) + ("" if style == 3 else "\n"))       # style 3: the last line is not terminated
     return path, sizes, size
 
 
@@ -173,7 +184,7 @@ def c16_case(tdir, d, k, b):
     items = text_items(kind, cfg["text"])
     tag = "%d" % k
     scheme = k % 2          # every other case: chromosome names that share prefixes and differ in length
-    inp, sizes, size = write_inputs(d, kind, items, tag, scheme)
+    inp, sizes, size = write_inputs(d, kind, items, tag, scheme, style=(k // 2) % 4)
     big = os.path.join(d, "out_%s.%s" % (tag, "bw" if kind == "bw" else "bb"))
     back = os.path.join(d, "back_%s.txt" % tag)
     ucsc = cfg["style"] == "ucsc"
